@@ -211,6 +211,44 @@ def check_resolver_shape(res: Result, repo, prop="C20"):
             res.ok(rule, {"helper": fn.name, "lookup": "indicators and sub_indicators both searched"})
         else:
             res.fail(rule, finding(prop, rule, fn, fn.node, "resolver no longer searches both reading dicts", construct=f"{fn.name}: dict lookups"))
+    # a field is taken out of a reading only after the reading was seen to be a dict: a warm-up None / a scalar stored under the name
+    # is handed back (or counts as missing), it is never subscripted / .get()-ed
+    for fn in resolvers:
+        seen_fns = {}
+        for f, n in closure_nodes(fn):
+            seen_fns[f.name] = f
+        for f in seen_fns.values():
+            par = {}
+            for a in ast.walk(f.node):
+                for c in ast.iter_child_nodes(a):
+                    par[id(c)] = a
+            looked = set()
+            for a in ast.walk(f.node):
+                if isinstance(a, ast.Assign) and len(a.targets) == 1 and isinstance(a.targets[0], ast.Name) and any(isinstance(x, ast.Attribute) and x.attr in ("indicators", "sub_indicators") for x in ast.walk(a.value)):
+                    looked.add(a.targets[0].id)
+            for a in ast.walk(f.node):
+                recv = None
+                if isinstance(a, ast.Call) and isinstance(a.func, ast.Attribute) and a.func.attr == "get" and isinstance(a.func.value, ast.Name) and a.func.value.id in looked:
+                    recv = a.func.value.id
+                elif isinstance(a, ast.Subscript) and isinstance(a.value, ast.Name) and a.value.id in looked and isinstance(a.ctx, ast.Load):
+                    recv = a.value.id
+                if recv is None:
+                    continue
+                guarded, cur = False, a
+                while id(cur) in par:
+                    p_ = par[id(cur)]
+                    if isinstance(p_, (ast.IfExp, ast.If)):
+                        t_ = p_.test
+                        is_dict = isinstance(t_, ast.Call) and call_name(t_) == "isinstance" and len(t_.args) == 2 and ast.unparse(t_.args[0]) == recv and "dict" in ast.unparse(t_.args[1])
+                        in_body = (cur is p_.body) if isinstance(p_, ast.IfExp) else any(cur is b for b in p_.body)
+                        if is_dict and in_body:
+                            guarded = True
+                            break
+                    cur = p_
+                if guarded:
+                    res.ok(rule, {"helper": f.name, "site": norm_construct(a), "why": "field taken from a reading known to be a dict"})
+                else:
+                    res.fail(rule, finding(prop, rule, f, a, f"a field is taken out of the looked-up reading `{recv}` without `isinstance({recv}, dict)` holding there: a reading stored as None (warm-up) or as a scalar raises AttributeError / TypeError instead of counting as missing"))
     dotted = any(call_name(c) == "_nested_indicator" for c in calls_in(rbc.node)) or any(isinstance(n, ast.Call) and call_name(n) == "split" for _, n in closure_nodes(rbc))
     if dotted and any(isinstance(n, ast.Call) and call_name(n) == "getattr" for _, n in closure_nodes(rbc)):
         res.ok(rule, {"helper": "reading_by_candle", "why": "dotted names go to _nested_indicator; candle fields via getattr"})
@@ -362,6 +400,9 @@ def run(repo, tier) -> Result:
     res.rule("R-TRUTH", floor=15)
     # default position of reading()/prev_reading()/has_reading after calculate() is the newest candle; names never contain the separator
     check_active_cursor("C20", res, repo)
+    from ..framework_rules import check_cursor_kept
+
+    check_cursor_kept("C20", res, repo)
     check_name_sanitised("C20", res, repo)
     from ..framework_rules import check_name_matching
 
